@@ -349,6 +349,101 @@ Definition check_pool (c : pool_case) : result :=
              + bN (q_retries c) 16 + bN (q_has_ctx (q_reqs c)) 32)%N
    end, 0%N).
 
+(** *** group "burst": very many results within one second of a time-based window
+
+    A step [BBurst now id n] stands for [n] successive RecordResult(id, success) at the same
+    clock reading.  The first one is an ordinary [cb_record] (it evicts); for the remaining
+    n-1 the model does not unroll: when the breaker is CLOSED on a time-based window holding
+    no failure and no slow call, with the clock inside the window ([burst_guard]), each further
+    success only adds 1 to the window total and to the bucket of that second and cannot trip
+    the breaker, so n-1 of them add n-1 ([tw_add]; [burst_fold] in proofs/CBProofsBurst.v
+    proves that the shortcut equals the n-1 fold unrolled).  When the guard does not hold the
+    case is rejected (no result), it is never passed. *)
+Inductive bop := BOp (o : op) | BBurst (now id n : Z).
+
+Definition tw_add (i : nat) (n : Z) (w : twin) : twin :=
+  let b := nth i (tw_bkt w) tb0 in
+  {| tw_total := tw_total w + n; tw_slow := tw_slow w; tw_fail := tw_fail w;
+     tw_begin := tw_begin w; tw_first := tw_first w;
+     tw_bkt := list_set i {| tb_total := tb_total b + n; tb_slow := tb_slow b; tb_fail := tb_fail b |} (tw_bkt w) |}.
+
+Definition burst_guard (pol : policy) (now id : Z) (c : cb) : option (twin * nat) :=
+  match c_state c, c_win c with
+  | Closed, WT w =>
+      let len := Z.of_nat (List.length (tw_bkt w)) in
+      let secs := (now - tw_begin w) ÷ second in
+      if (id =? c_id c) && (tw_fail w =? 0) && (tw_slow w =? 0) && (0 <? tw_total w) &&
+         (0 <=? secs) && (secs <? len) &&
+         (1 <=? p_fthr pol) && (1 <=? p_sthr pol) && (0 <? p_slowdur pol)
+      then Some (w, Z.to_nat (Z.rem (Z.of_nat (tw_first w) + secs) len))
+      else None
+  | _, _ => None
+  end.
+
+Definition cb_bstep (pol : policy) (b : bop) (c : cb) : option (obs * cb) :=
+  match b with
+  | BOp o => Some (cb_step pol o c)
+  | BBurst now id n =>
+      if n <? 1 then None else
+      let c1 := snd (cb_record pol now id RSucc c) in
+      match burst_guard pol now id c1 with
+      | Some (w, i) =>
+          let c2 := set_win c1 (WT (tw_add i (n - 1) w)) in Some ((false, c_state c2, c_id c2), c2)
+      | None => None
+      end
+  end.
+
+Fixpoint cb_brun (pol : policy) (c : cb) (l : list bop) : option (list obs) :=
+  match l with
+  | [] => Some []
+  | b :: t => match cb_bstep pol b c with
+              | Some (ob, c') => option_map (cons ob) (cb_brun pol c' t)
+              | None => None
+              end
+  end.
+
+(** the same on the contract automaton: n-1 further successes are n-1 further log entries *)
+Definition sp_bstep (pol : policy) (b : bop) (s : spec) : option (obs * spec) :=
+  match b with
+  | BOp o => Some (sp_step pol o s)
+  | BBurst now id n =>
+      if n <? 1 then None else
+      let s1 := snd (sp_record pol now id RSucc s) in
+      let v := view (s_kind s1) (sec_of now) (s_log s1) in
+      match s_state s1, s_kind s1 with
+      | Closed, KTime _ =>
+          if (id =? s_id s1) && (cnt is_fail v =? 0) && (cnt is_slow v =? 0) && negb (Nat.eqb (List.length v) 0) &&
+             (1 <=? p_fthr pol) && (1 <=? p_sthr pol) && (0 <? p_slowdur pol)
+          then let s2 := sp_set_log s1 (repeat (sec_of now, RSucc) (Z.to_nat (n - 1)) ++ s_log s1) in
+               Some ((false, s_state s2, s_id s2), s2)
+          else None
+      | _, _ => None
+      end
+  end.
+
+Fixpoint sp_brun (pol : policy) (s : spec) (l : list bop) : option (list obs) :=
+  match l with
+  | [] => Some []
+  | b :: t => match sp_bstep pol b s with
+              | Some (ob, s') => option_map (cons ob) (sp_brun pol s' t)
+              | None => None
+              end
+  end.
+
+Record burst_case := { u_pol : policy; u_t0 : Z; u_ops : list bop; u_obs : list (Z * Z * Z) }.
+
+Definition explain_burst (c : burst_case) :=
+  (option_map (map obs_code) (cb_brun (u_pol c) (cb_new (u_pol c) (u_t0 c)) (u_ops c)),
+   option_map (map obs_code) (sp_brun (u_pol c) (sp_new (u_pol c) (u_t0 c)) (u_ops c))).
+
+Definition has_burst (l : list bop) : bool := existsb (fun b => match b with BBurst _ _ n => 65536 <=? n | _ => false end) l.
+
+Definition check_burst (c : burst_case) : result :=
+  let '(m, s) := explain_burst c in
+  (match m with Some l => list_eqb Z3_eqb l (u_obs c) | None => false end,
+   match s with Some l => list_eqb Z3_eqb l (u_obs c) | None => false end,
+   (match u_ops c with [] => 0 | _ => 1 + bN (has_burst (u_ops c)) 1 + bN (has_state 3 (u_obs c)) 2 end)%N, 0%N).
+
 (** *** several wrappers / pools created from ONE policy object
 
     [CreateWrapper] is called once per server pool (InjectResiliencePolicy: main and
